@@ -11,7 +11,7 @@ import collections
 import enum
 
 from harness import framework, gen, lean, streams, terms
-from harness.datapath import ALL_CFGS, Session, cfg_name, reply_canon, reply_kind
+from harness.datapath import ALL_CFGS, Session, cfg_name, leaf_iterated, reply_canon, reply_kind
 
 CFGS = ALL_CFGS + [{"gen": True, "tuple": False, "detailed": d, "forbid": True} for d in (True, False)]
 
@@ -82,9 +82,10 @@ def run(chk: framework.Check):
     drv = lean.Driver()
     n_worlds = 120 if chk.tier == "quick" else 1500
     corr_fail = []
-    for G, S, w in streams.worlds(chk, drv, n_worlds, unions=True, nt=True):
+    for G, S, w in streams.worlds(chk, drv, n_worlds, unions=True, nt=True, coercible=True):
         for ty, x, xv in streams.typed_values(chk, G, S, w, n_types=4, n_values=1):
             has_union = bool(gen.reach_unions(w, ty))
+            enum_lit = gen.has_enum_lit(w, ty)
             for cfg in CFGS:
                 if not gen.supported(cfg, w, ty):
                     chk.note("unsupported-by-converter-class")
@@ -103,6 +104,8 @@ def run(chk: framework.Check):
                              "ty:" + (ty if isinstance(ty, str) else ty[0]))
                     if has_union:
                         chk.note("union-reachable:" + kind + ":" + ri[0])
+                    if enum_lit:
+                        chk.note("literal-with-enum-members-reachable:" + kind + ":" + ri[0])
                     # ---- oracle: accepted results conform
                     if ri[0] in ("ok", "unrep"):
                         if not conforms_py(S, ty, ri[2] if ri[0] == "ok" else ri[1]):
@@ -115,6 +118,9 @@ def run(chk: framework.Check):
                     # ---- correspondence
                     rm = S.model_st(cfg, ty, p)
                     km = reply_kind(rm)
+                    if leaf_iterated(w, cfg, ty, p):
+                        # a str / bytes payload at an iterating position (iterated into characters / ints)
+                        chk.note("str-bytes-iterated:" + ("unmodelled" if km == "unmodelled" else "compared:" + ri[0]))
                     if km == "unmodelled":
                         chk.unmodelled += 1
                         continue
